@@ -192,7 +192,7 @@ fn fault_sweep<const K: usize>(t0: &AffTree<K>, st: &Value, pre: &Value, max_sub
     }
     // two faults in a row where the second one hits whatever LP call follows a bad witness (a retry, the sibling, ...)
     for i in 0..n {
-        for k in [Fault::FarOff, Fault::Perturbed] { plans.push(vec![(i, k), (i + 1, Fault::Error)]); }
+        for k in kinds { plans.push(vec![(i, k), (i + 1, Fault::Error)]); }
     }
     if max_subset >= 2 {
         for i in 0..n { for j in (i + 1)..n { for k1 in kinds { for k2 in kinds { plans.push(vec![(i, k1), (j, k2)]); } } } }
